@@ -494,7 +494,11 @@ InbQAppend  == {n_i}
 SimNames    == {n_a, n_b, n_ab, n_bb, n_ba, n_abb, n_Ia, n_an, n_anb, <<"a", "*">>, <<"a", "%">>, <<"a", "b">>}
 SimCreate   == SimNames \cup {Inbox, n_i, n_aS, <<"b", "/">>}
 SimName     == SimNames \cup {Inbox, n_i}
-SimRename   == Pairs(SimNames \cup {Inbox}) \cup {<<n_i, n_a>>, <<n_a, n_i>>}
+SimRename   == {<<n_a, n_b>>, <<n_b, n_a>>, <<n_ab, n_ba>>, <<n_ba, n_ab>>, <<n_ab, n_a>>, <<n_a, n_ab>>,
+                <<Inbox, n_a>>, <<Inbox, n_b>>, <<n_i, n_an>>, <<n_a, Inbox>>, <<n_b, n_i>>,
+                <<n_an, n_anb>>, <<n_anb, n_b>>, <<<<"a", "*">>, <<"a", "%">>>>, <<<<"a", "%">>, n_b>>,
+                <<n_b, n_bb>>, <<n_bb, n_b>>, <<n_a, n_a>>, <<n_Ia, n_a>>, <<n_b, n_Ia>>,
+                <<n_b, <<"a", "b">>>>, <<n_abb, n_a>>, <<n_ab, n_b>>}
 SimListQ    == {<<n_e, n_pc>>, <<n_e, n_st>>, <<n_aS, n_pc>>, <<n_a, n_st>>, <<n_e, <<"a", "*">>>>, <<n_e, <<"a", "%">>>>,
                 <<n_e, <<"%", "/", "%">>>>, <<n_e, <<"*", "b">>>>, <<n_e, n_i>>, <<n_e, n_e>>, <<n_aS, n_e>>,
                 <<n_e, <<"a", "/", "*">>>>, <<n_e, <<"%", "b">>>>, <<Inbox, <<"/", "%">>>>, <<n_e, n_a>>, <<n_e, n_an>>}
